@@ -715,7 +715,7 @@ def replay(ctx, rec):
         t = rdac_run((r["seed"], [(tuple(s[0]), s[1]) for s in r["steps"]]))
         rej = ctx.validate_traces("Trace_RDAC", "Trace_RDAC.cfg", [t])
     if rej:
-        print(f"VIOLATION property=C18 replay=(given) why={rej[0][2]} step={rej[0][1]}")
+        print(f"VIOLATION property=C18 replay={rec.get('path', '(given)')} why={rej[0][2]} step={rej[0][1]}")
         return 1
     print("replay: property holds on this history")
     return 0
